@@ -37,6 +37,7 @@ def givens_orthogonal(n, tag="S", signs=True, block=None, planes=None):
                 s = core.real("%s.s%d" % (tag, k))
                 ENGINE.assume(c.re * c.re + s.re * s.re == 1,
                               "eigh stub: S from products of Givens rotations (c^2+s^2=1) times column signs")
+                ENGINE.square_rules[s.re.decl().name()] = 1 - c.re * c.re
                 G = numpy.empty((n, n), dtype=object)
                 G.fill(SymR(F0))
                 for d in range(n):
@@ -51,6 +52,7 @@ def givens_orthogonal(n, tag="S", signs=True, block=None, planes=None):
         for i in range(n):
             sg = core.real("%s.sg%d" % (tag, i))
             ENGINE.assume(sg.re * sg.re == 1)
+            ENGINE.square_rules[sg.re.decl().name()] = z3.RealVal(1)
             S[:, i] = S[:, i] * sg
     return S
 
@@ -79,6 +81,7 @@ def make_eigh_handler(eigen_equation=True, ascending=True, block=None, tag="S", 
             for i in range(1, n):
                 v = core.cplx("%s.v%d" % (t, i))
                 ENGINE.assume(v.re * v.re + v.im * v.im == 1)
+                ENGINE.square_rules[v.im.decl().name()] = 1 - v.re * v.re
                 S[i, :] = S[i, :] * v
             S1 = numpy.conj(S.T)
         else:
